@@ -814,7 +814,11 @@ def Commandable(
             super(_Commando, self).__init__(**kwargs)
 
             # build a default value in case one is needed
-            default_value = datatype().value
+            if issubclass(datatype, Atomic):
+                default_value = datatype().value
+            else:
+                # constructed datatypes (DateTime) are their own value
+                default_value = datatype()
             if issubclass(datatype, Enumerated):
                 default_value = datatype._xlate_table[default_value]
             if _debug:
